@@ -6,6 +6,10 @@ Tie:      `tok`   function level: md5(model pre-image) == tokenize(node), for ev
           `pair`  model equality pattern vs real `==` / token equality / hash; property oracle: nodes that compare
                   equal or share a token evaluate to equal results on random dependency values
           `eval`  node(values) vs the model's evaluator
+          `hist`  stateful histories: build a node, force its token (hash / == / tokenize / set membership), derive
+                  nodes by substitute (rewiring, renaming), copy, pickle, fuse; then (a) the token every node answers
+                  with == the token of its current fields (rebuilt afresh, and the model's), (b) derived nodes that
+                  compare equal or share a token evaluate alike
 """
 from __future__ import annotations
 
@@ -17,15 +21,19 @@ from props import _token_util as U
 PROP = "C11"
 READY = True
 DRIVER = "dm_token"
-LEAN_MODULES = ["DaskModel.Props.C11"]
+LEAN_MODULES = ["DaskModel.Props.C11", "DaskModel.Props.C11Cache"]
 TABLES = ["TaskSpecIdentity"]
 CASE_TIMEOUT_S = 20
 LEVEL_TEXT = ("Lean proof: for task-spec nodes (Alias, DataNode, Task with args/kwargs, List/Tuple/Set/Dict containers, "
               "TaskRef and literal arguments, nested arbitrarily) equality of the normal forms fed to tokenize implies "
               "equal evaluation on every environment, over any value algebra in which sets ignore element order and dicts "
               "with distinct keys ignore item order (node_identity_sound, by structural induction); == is same class and "
-              "same token; a == b implies hash a == hash b. The exact md5 pre-image of every node class is compared with "
-              "the real tokenize on each run.")
+              "same token; a == b implies hash a == hash b. The token cache of Task objects is explicit state: along every "
+              "history of force / substitute / copy / pickle from freshly built nodes the token the code answers with is the "
+              "token of the node's current fields (cached_token_sound, history_token_sound), so derived nodes that compare "
+              "equal evaluate alike (derived_nodes_sound) and substitute evaluates like the original under the substituted "
+              "environment (substN_eval). The exact md5 pre-image of every node class is compared with the real tokenize on "
+              "each run, also after such histories.")
 LEVEL_NOTE = ("md5 assumed injective; a literal str argument that happens to be a token is not distinguished from the node "
               "it names (hypothesis: literals are user values); pickle of functions / TaskRef assumed faithful; Dict "
               "containers whose keys coincide after evaluation are outside the theorem (known finding).")
@@ -175,7 +183,164 @@ def case_eval(ctx, inp):
     _classes(ctx, inp["node"], "eval-")
 
 
-CASES = {"tok": case_tok, "pair": case_pair, "eval": case_eval}
+# ----------------------------------------------------------------------------------------------
+# stateful histories: force the token, then derive nodes by substitute / rename / copy / pickle / fuse
+# ----------------------------------------------------------------------------------------------
+
+def _rebuild(obj):
+    """the same node built afresh through the constructors, from the fields the object holds NOW (no cached state)"""
+    from dask import _task_spec as ts
+    if isinstance(obj, ts.Dict):
+        return ts.Dict(*[_rebuild(a) for a in obj.args])
+    if isinstance(obj, ts.NestedContainer):
+        args = [_rebuild(a) for a in obj.args]
+        cls = type(obj)
+        if len(args) == 1 and isinstance(args[0], cls.klass):
+            return cls(cls.klass([args[0]]))
+        return cls(*args)
+    if isinstance(obj, ts.Task):
+        kwargs = {k: _rebuild(v) for k, v in obj.kwargs.items()}
+        return type(obj)(obj.key, obj.func, *[_rebuild(a) for a in obj.args], **kwargs)
+    if isinstance(obj, ts.Alias):
+        return ts.Alias(obj.key, obj.target)
+    if isinstance(obj, ts.DataNode):
+        return ts.DataNode(obj.key, obj.value)
+    if isinstance(obj, ts.TaskRef):
+        return ts.TaskRef(obj.key)
+    if isinstance(obj, dict):
+        return {k: _rebuild(v) for k, v in obj.items()}
+    if isinstance(obj, (list, tuple)):
+        return type(obj)(_rebuild(v) for v in obj)
+    return obj
+
+
+def _key(spec):
+    return U.build(spec) if spec[0] != "tuple" else tuple(U.build(e) for e in spec[1])
+
+
+def _force(obj, how, others):
+    if how == "hash":
+        try:
+            hash(obj)
+        except TypeError:
+            _tokenize(obj)
+    elif how == "eq":
+        obj == (others[0] if others else obj)
+    elif how == "set":
+        try:
+            {obj}
+        except TypeError:
+            _tokenize(obj)
+    else:
+        _tokenize(obj)
+
+
+def case_hist(ctx, inp):
+    import pickle
+    from dask import _task_spec as ts
+    base = U.build_node(inp["base"])
+    if not _is_graphnode(base):
+        return
+    pop = [base]
+    how_made = ["base"]
+    for op in inp["ops"]:
+        kind = op[0]
+        src = pop[op[1] % len(pop)]
+        try:
+            if kind == "force":
+                _force(src, op[2], pop)
+                ctx.branch("hist-force-" + op[2])
+                continue
+            if kind == "subst":
+                subs = {_key(k): _key(v) for k, v in op[2]}
+                new = src.substitute(subs)
+                real = any(k in src.dependencies and subs[k] != k for k in subs)
+                lab = "subst-rewire" if real else "subst-miss"
+            elif kind == "rename":
+                new = src.substitute({}, key=op[2])
+                lab = "rename"
+            elif kind == "substrename":
+                subs = {_key(k): _key(v) for k, v in op[2]}
+                new = src.substitute(subs, key=op[3])
+                lab = "subst+rename"
+            elif kind == "copy":
+                new = src.copy()
+                lab = "copy"
+            elif kind == "pickle":
+                new = pickle.loads(pickle.dumps(src))
+                lab = "pickle"
+            elif kind == "fuse":
+                if not isinstance(src, ts.Task) or isinstance(src, ts.NestedContainer):
+                    continue
+                consumer = ts.Task("consumer-%d" % len(pop), U.FUNCS[1], ts.TaskRef(src.key), ts.TaskRef("y"))
+                new = ts.GraphNode.fuse(src, consumer)
+                lab = "fuse"
+            else:
+                raise ValueError(op)
+        except NotImplementedError:
+            ctx.note("hist-not-implemented")
+            continue
+        except (TypeError, AssertionError) as e:
+            # NestedContainer inherits Task.copy, which calls the container constructor with Task arguments and raises
+            # (TypeError "multiple values for keyword argument 'constructor'", AssertionError for Dict): no node is derived
+            if kind == "copy" and isinstance(src, ts.NestedContainer):
+                ctx.note("hist-container-copy-raises")
+                continue
+            raise
+        if not _is_graphnode(new):
+            continue
+        pop.append(new)
+        how_made.append(lab)
+        ctx.branch("hist-" + lab + ":" + type(src).__name__)
+    # (a) what the code answers for the token == the token of the node's current fields
+    toks = []
+    for obj, lab in zip(pop, how_made):
+        t = _tokenize(obj)
+        toks.append(t)
+        fresh = _tokenize(_rebuild(obj))
+        if t != fresh:
+            ctx.fail("the token the node answers with is not the token of its current fields (stale cached token)",
+                     sig=None, observed={"made_by": lab, "node": repr(obj)[:200], "answered": t, "recomputed": fresh},
+                     expected=fresh)
+        try:
+            mt, _ = U.model_node_token(ctx, obj)
+            ctx.eq("tokenize(node) after a history == model token of the current fields", mt, t)
+        except U.Unsupported:
+            ctx.note("hist-unsupported")
+    # (b) nodes that compare equal / share a token evaluate alike
+    nfail = 0
+    for i in range(len(pop)):
+        for j in range(i):
+            a, b = pop[i], pop[j]
+            eq = bool(a == b)
+            same_tok = toks[i] == toks[j]
+            if eq:
+                try:
+                    if hash(a) != hash(b):
+                        ctx.fail("a == b but hash(a) != hash(b)", sig="hash:" + type(a).__name__, observed=[repr(a)[:150], repr(b)[:150]])
+                except TypeError:
+                    pass
+            if not (eq or same_tok) or nfail:
+                continue
+            for envspec in inp["envs"]:
+                values = _values(envspec)
+                try:
+                    ra, rb = _call(a, values), _call(b, values)
+                except TypeError:
+                    ctx.note("eval-typeerror")
+                    continue
+                if not (U.canon_repr(ra) == U.canon_repr(rb) or ra == rb):
+                    dup = False
+                    ctx.fail("nodes derived from one another compare equal / share a token but evaluate to different values",
+                             sig=None, observed={"made_by": [how_made[i], how_made[j]], "a": repr(a)[:150], "b": repr(b)[:150],
+                                                 "values": [U.canon_repr(ra)[:150], U.canon_repr(rb)[:150]]},
+                             expected="equal results")
+                    nfail += 1
+                    break
+    ctx.branch("hist")
+
+
+CASES = {"tok": case_tok, "pair": case_pair, "eval": case_eval, "hist": case_hist}
 
 
 # ----------------------------------------------------------------------------------------------
@@ -368,6 +533,78 @@ EXPLICIT = [
 ]
 
 
+def gen_ref_task(rng, depth=0):
+    """tasks / containers that really depend on keys (so that substitute rewires something)"""
+    def arg(d):
+        r = rng.random()
+        if r < 0.5:
+            return ["ref", rng.choice(KEYS)]
+        if r < 0.65:
+            return ["lit", rng.choice([["int", 1], ["str", "a"], ["list", [["int", 2]]]])]
+        if r < 0.75:
+            return ["alias", rng.choice(KEYS), rng.choice(KEYS)]
+        if d >= 2:
+            return ["ref", rng.choice(KEYS)]
+        return node(d + 1)
+
+    def node(d):
+        r = rng.random()
+        if r < 0.55:
+            kws = [[k, arg(d)] for k in rng.sample(["a", "b"], rng.choice([0, 0, 1, 2]))]
+            return ["task", rng.randrange(3), [arg(d) for _ in range(rng.randint(1, 3))], kws]
+        if r < 0.7:
+            return ["List", [arg(d) for _ in range(rng.randint(1, 3))]]
+        if r < 0.8:
+            return ["Tuple", [arg(d) for _ in range(rng.randint(1, 3))]]
+        if r < 0.9:
+            return ["Dict", [[["lit", ["str", k]], arg(d)] for k in rng.sample(["p", "q", "r"], rng.randint(1, 2))]]
+        return ["Set", [["ref", k] for k in rng.sample(KEYS, rng.randint(1, 2))]]
+    return node(depth)
+
+
+def gen_hist(rng):
+    base = gen_ref_task(rng) if rng.random() < 0.85 else rng.choice([["alias", rng.choice(KEYS), rng.choice(KEYS)], gen_node(rng)])
+    ops = []
+    n = 1
+    for _ in range(rng.randint(2, 7)):
+        r = rng.random()
+        i = rng.randrange(n)
+        if r < 0.3:
+            ops.append(["force", i, rng.choice(["hash", "eq", "tokenize", "set"])])
+            continue
+        if r < 0.6:
+            ks = rng.sample(KEYS, rng.randint(1, 2))
+            ops.append(["subst", i, [[k, rng.choice(KEYS)] for k in ks]])
+        elif r < 0.7:
+            ops.append(["rename", i, "renamed-%d" % n])
+        elif r < 0.78:
+            ops.append(["substrename", i, [[rng.choice(KEYS), rng.choice(KEYS)]], "renamed-%d" % n])
+        elif r < 0.86:
+            ops.append(["copy", i])
+        elif r < 0.94:
+            ops.append(["pickle", i])
+        else:
+            ops.append(["fuse", i])
+        n += 1
+    return {"base": base, "ops": ops, "envs": gen_envs(rng, 2)}
+
+
+EXPLICIT_HIST = [
+    # token computed first, then the dependency is rewired: the rewired task must not keep the old token
+    {"base": ["task", 0, [["ref", ["str", "x"]]], []],
+     "ops": [["force", 0, "hash"], ["subst", 0, [[["str", "x"], ["str", "y"]]]], ["subst", 0, [[["str", "x"], ["str", "w"]]]],
+             ["rename", 0, "other"], ["copy", 0], ["pickle", 0]]},
+    {"base": ["task", 1, [["List", [["ref", ["str", "x"]], ["task", 0, [["ref", ["str", "y"]]], []]]]], [["a", ["ref", ["str", "x"]]]]],
+     "ops": [["force", 0, "tokenize"], ["subst", 0, [[["str", "y"], ["str", "w"]]]], ["force", 1, "set"],
+             ["subst", 1, [[["str", "x"], ["str", "y"]]]], ["substrename", 0, [[["str", "x"], ["str", "w"]]], "k2"]]},
+    {"base": ["task", 2, [["ref", ["str", "x"]], ["ref", ["str", "y"]]], []],
+     "ops": [["force", 0, "eq"], ["fuse", 0], ["force", 1, "hash"], ["subst", 1, [[["str", "x"], ["str", "w"]]]],
+             ["subst", 1, [[["str", "y"], ["str", "w"]]]]]},
+    {"base": ["alias", ["str", "x"], ["str", "y"]],
+     "ops": [["force", 0, "tokenize"], ["subst", 0, [[["str", "y"], ["str", "w"]]]], ["subst", 0, [[["str", "x"], ["str", "w"]]]]]},
+]
+
+
 def generate(ctx):
     rng = ctx.rng
     for a, b, label in EXPLICIT:
@@ -386,6 +623,10 @@ def generate(ctx):
         else:
             b, label = gen_node(rng), "independent"
         yield "pair", {"a": a, "b": b, "label": label, "envs": gen_envs(rng)}
+    for h in EXPLICIT_HIST:
+        yield "hist", dict(h, envs=gen_envs(rng, 2))
+    for _ in range(ctx.n(250, 3000)):
+        yield "hist", gen_hist(rng)
     _NO_COLLIDE[0] = True
     try:
         evals = [{"node": gen_node(rng), "env": gen_envs(rng, 1)[0]} for _ in range(ctx.n(150, 3000))]
